@@ -255,8 +255,9 @@ def _get_numbers_distance(num1, num2, max_=1, use_log_scale=False, log_scale_sim
 def _numpy_div(a, b, replace_inf_with=1):
     max_array = np.full(shape=a.shape, fill_value=replace_inf_with, dtype=np_float64)
     result = np.divide(a, b, out=max_array, where=b != 0, dtype=np_float64)
-    # wherever 2 numbers are the same, make sure the distance is zero. This is mainly for 0 divided by zero.
-    result[a == b] = 0
+    # wherever 2 numbers are the same (their difference, the numerator, is zero), make sure the distance is zero.
+    # This is mainly for 0 divided by zero.
+    result[a == 0] = 0
     return result
 
 # To deal with numbers close to zero
